@@ -18,7 +18,7 @@ use domain::net::client::request::{ComposeRequest, Error as ReqError, GetRespons
 use domain::net::client::validator;
 use domain::rdata::dnssec::{RtypeBitmap, Timestamp};
 use domain::rdata::nsec3::{Nsec3Salt, OwnerHash};
-use domain::rdata::{Cname, Dnskey, Ds, Ns, Nsec, Nsec3, Rrsig, Soa, Txt, ZoneRecordData, A};
+use domain::rdata::{AllRecordData, Cname, Dnskey, Ds, Ns, Nsec, Nsec3, Rrsig, Soa, Txt, ZoneRecordData, A};
 use dv_harness::*;
 use std::collections::{BTreeMap, BTreeSet};
 use std::future::Future;
@@ -566,6 +566,22 @@ fn gwords(v: &GView) -> String {
     format!("{} {} {} {} {} {} {} {} {}", v.rtype, v.nrr, v.is_nsec as u8, nhex(&v.owner), nhex(&v.next), ts, v.state, nhex(&v.signer),
         v.ce.as_ref().map(|c| nhex(c)).unwrap_or("-".into()))
 }
+/// The same view read off a real ValidatedGroup through its accessors.
+fn view(g: &vh::ValidatedGroup) -> GView {
+    let rrs = g.rr_set();
+    let (is_nsec, next, mut types): (bool, N, Vec<u16>) = match rrs.first().map(|r| r.data()) {
+        Some(AllRecordData::Nsec(n)) => (true, n.next_name().to_name::<Bytes>(), n.types().iter().map(|t| t.to_int()).collect()),
+        _ => (false, nm("."), vec![]),
+    };
+    types.sort();
+    let secure = g.state() == ValidationState::Secure;
+    GView { rtype: g.rtype().to_int(), nrr: rrs.len(), is_nsec, owner: g.owner(), next, types, secure, state: st(g.state()), signer: g.signer_name(), ce: g.closest_encloser() }
+}
+fn gwords01(v: &GView) -> String {
+    let ts = if v.types.is_empty() { "-".to_string() } else { v.types.iter().map(|t| t.to_string()).collect::<Vec<_>>().join(",") };
+    format!("{} {} {} {} {} {} {} {} {}", v.rtype, v.nrr, v.is_nsec as u8, nhex(&v.owner), nhex(&v.next), ts, v.secure as u8, nhex(&v.signer),
+        v.ce.as_ref().map(|c| nhex(c)).unwrap_or("-".into()))
+}
 fn usable(v: &GView, signer: &N) -> bool {
     v.rtype == 47 && v.nrr == 1 && v.is_nsec && v.secure && rfc_eq(&v.signer, signer)
         && v.ce.as_ref().map_or(true, |ce| star(ce).map_or(false, |s| rfc_eq(&s, &v.owner)))
@@ -865,6 +881,90 @@ fn main() {
                             out.check(covers(&target) && wild_ok, "denial_unsound_nxdomain", &c, "secure name error without covering NSECs for the name and the wildcard");
                         }
                     }
+                }
+            }
+        }
+    }
+
+    // ---------------- (3a) the NSEC helpers called directly on really validated groups
+    {
+        let w = world.clone();
+        let vc = ValidationContext::new(w.anchors(), Mock::new(w.clone(), quiet.clone()));
+        let cfg = domain::dnssec::validator::context::Config::new();
+        let mut unis: Vec<Vec<N>> = vec![];
+        for zi in [0usize, 1] {
+            let apex = w.zones[zi].apex.clone();
+            let mut u = vec![apex.clone()];
+            for _ in 0..14 { u.push(rel_name(&mut r, &apex, 3)); }
+            if let Some(s) = star(&apex) { u.push(s); }
+            unis.push(u);
+        }
+        for _ in 0..(1200 * scale) {
+            let zi = if r.chance(2, 3) { 0 } else { 1 };
+            let uni = unis[zi].clone();
+            let sets = make_groups(&mut r, &w, zi, &uni);
+            if sets.is_empty() { continue; }
+            let resp = Resp { rcode: Rcode::NOERROR, answer: sets.iter().map(|s| s.0.clone()).collect(), authority: vec![] };
+            let msg = build_msg(5, &nm("q."), Rtype::A, &resp);
+            let mut gs = vh::GroupSet::new();
+            for rr in msg.answer().unwrap() { gs.add(rr.unwrap()).unwrap(); }
+            let raw: Vec<vh::Group> = gs.iter().cloned().collect();
+            let mut groups: Vec<vh::ValidatedGroup> = vec![];
+            for g in raw { if let Ok(vg) = rt.block_on(g.validated::<Vec<u8>, Mock>(&vc, &cfg)) { groups.push(vg); } }
+            let views: Vec<GView> = groups.iter().map(view).collect();
+            // the signature validation itself: the state the harness expects from how it signed
+            for v in &views {
+                if let Some(exp) = sets.iter().find(|s| rfc_eq(&s.1.owner, &v.owner) && s.1.rtype == v.rtype) {
+                    out.check(exp.1.secure == v.secure, if v.secure { "secure_without_chain" } else { "honest_not_secure" }, &format!("group {} {}", v.owner, v.rtype), &format!("expected secure={} got {}", exp.1.secure, v.state));
+                    out.check(exp.1.ce.as_ref().map(|c| nhex(c)) == v.ce.as_ref().map(|c| nhex(c)) || !v.secure, "wildcard_closest_encloser_differs", &format!("group {} {}", v.owner, v.rtype), "");
+                }
+            }
+            let gw: String = views.iter().map(gwords01).collect::<Vec<_>>().join(" ");
+            let apex = w.zones[zi].apex.clone();
+            let signer = match r.below(10) { 0 => flip_case(&mut r, &apex), 1 => nm("other.sec."), 2 => nm("."), _ => apex.clone() };
+            let base = r.pick(&uni).clone();
+            let target = match r.below(5) { 0 => flip_case(&mut r, &base), 1 => { let mut l = vec![r.pick(LABS).to_vec()]; l.extend(labels_of(&base)); name_from_labels(&l).unwrap() } _ => base };
+            let qt = *r.pick(QTYPES);
+            let nxs = |s: &vh::NsecNXState| match s { vh::NsecNXState::Exists => "Exists".to_string(), vh::NsecNXState::Nothing => "Nothing".to_string(), vh::NsecNXState::DoesNotExist(ce) => format!("DoesNotExist {}", nhex(ce)) };
+            idx += 1;
+            if out.wants(idx) {
+                let c = format!("nodata {} {} {} {}", nhex(&target), qt.to_int(), nhex(&signer), gw);
+                out.begin(&c);
+                match catch_mut(|| vh::nsec_for_nodata(&target, &mut groups, qt, &signer)) {
+                    Ok((s, e)) => { let nd = matches!(s, vh::NsecState::NoData); out.case(&c, &format!("{} {}", if nd { "NoData" } else { "Nothing" }, ede_code(&e)), nd, "nsec_for_nodata"); }
+                    Err(e) => { out.case(&c, "Panic", true, "nsec_for_nodata"); out.check(false, "panic_validator", &c, &e); }
+                }
+            }
+            idx += 1;
+            if out.wants(idx) {
+                let c = format!("notex {} {} {}", nhex(&target), nhex(&signer), gw);
+                out.begin(&c);
+                match catch_mut(|| vh::nsec_for_not_exists(&target, &mut groups, &signer)) {
+                    Ok((s, e)) => {
+                        out.case(&c, &format!("{} {}", nxs(&s), ede_code(&e)), matches!(s, vh::NsecNXState::DoesNotExist(_)), "nsec_for_not_exists");
+                        if let vh::NsecNXState::DoesNotExist(ce) = &s {
+                            out.check(is_suffix(ce, &target) && !rfc_eq(ce, &target), "closest_encloser_not_proper_suffix", &c, &format!("ce {}", ce));
+                        }
+                    }
+                    Err(e) => { out.case(&c, "Panic", true, "nsec_for_not_exists"); out.check(false, "panic_validator", &c, &e); }
+                }
+            }
+            idx += 1;
+            if out.wants(idx) {
+                let c = format!("nxdom {} {} {}", nhex(&target), nhex(&signer), gw);
+                out.begin(&c);
+                match catch_mut(|| vh::nsec_for_nxdomain(&target, &mut groups, &signer)) {
+                    Ok((s, e)) => out.case(&c, &format!("{} {}", nxs(&s), ede_code(&e)), matches!(s, vh::NsecNXState::DoesNotExist(_)), "nsec_for_nxdomain"),
+                    Err(e) => { out.case(&c, "Panic", true, "nsec_for_nxdomain"); out.check(false, "panic_validator", &c, &e); }
+                }
+            }
+            idx += 1;
+            if out.wants(idx) {
+                let c = format!("ndwild {} {} {} {}", nhex(&target), qt.to_int(), nhex(&signer), gw);
+                out.begin(&c);
+                match catch_mut(|| vh::nsec_for_nodata_wildcard(&target, &mut groups, qt, &signer)) {
+                    Ok((s, e)) => { let nd = matches!(s, vh::NsecState::NoData); out.case(&c, &format!("{} {}", if nd { "NoData" } else { "Nothing" }, ede_code(&e)), nd, "nsec_for_nodata_wildcard"); }
+                    Err(e) => { out.case(&c, "Panic", true, "nsec_for_nodata_wildcard"); out.check(false, "panic_validator", &c, &e); }
                 }
             }
         }
